@@ -747,6 +747,47 @@ func (s *c18scn) permRuns() bool {
 			}
 		}
 	}
+	// A directory in which no file can be created, but a target the process may
+	// write to, combined with a size limit below the new length: whatever
+	// mechanism the command uses, the file must end up complete (old or new).
+	for _, half := range []bool{false, true} {
+		s.reset()
+		f := c18fault{kind: "readonly-dir-writable-file", fsize: -1, uid: 65534}
+		minF := -1
+		for _, t := range s.targets {
+			os.Chmod(filepath.Join(s.dir, t.name), 0o666)
+			if minF < 0 || len(t.F) < minF {
+				minF = len(t.F)
+			}
+		}
+		if half {
+			f.fsize = int64(minF / 2)
+		}
+		f.desc = fmt.Sprintf("directory mode 0555, files mode 0666 (writable), uid 65534, size limit %d", f.fsize)
+		os.Chmod(s.dir, 0o555)
+		res := s.run(f)
+		os.Chmod(s.dir, 0o777)
+		if res.Class == "timeout" || res.Class == "starterror" {
+			c.Inconclusive(s.i, f.kind+" run: "+fmtErr(res))
+			s.sweep()
+			continue
+		}
+		c.Eval(1)
+		c.Count("crash_points", 1)
+		c.Count("crash_points_"+f.kind, 1)
+		for _, t := range s.targets {
+			st := s.state(t)
+			if st.class != "T" && st.class != "F" {
+				s.violation(f.kind+"-corrupt", fmt.Sprintf("under [%s] %s is neither its old nor its complete new contents (state %s, %d bytes; old %d, new %d; %s)", f.desc, t.name, st.class, len(st.data), len(t.T), len(t.F), fmtErr(res)), f, res, nil)
+				s.sweep()
+				return false
+			}
+		}
+		if res.Exit != 0 {
+			c.Nontrivial(fmt.Sprintf("%s|%s|%v", s.tag, f.kind, half))
+		}
+		s.sweep()
+	}
 	return true
 }
 
